@@ -8,14 +8,52 @@ Fixpoint forallb2 {A B} (f : A -> B -> bool) (a : list A) (b : list B) : bool :=
   | _, _ => false
   end.
 
-(* decls: the text strings of the union rule set in variable order; outs: what the implementation
-   reported for each of them when all rules are compiled together; alone_same: the implementation's
-   results for the rules of A (resp. B) in the union equal its results for A (resp. B) compiled alone
-   (verdicts and full match lists).
-   corr: the union's results are those of the model with one shared automaton over all strings.
-   spec: every string's matches are what that string gives when it is the only string of the scanner. *)
-Definition C12_case (prm : sparams) (m : bytes) (decls : list tdecl) (outs : list (list smatch))
+(* a declared string: its name ($s<id>), the `private` modifier, the declaration *)
+Record sdecl := { sd_name : N; sd_private : bool; sd_decl : tdecl }.
+(* a rule of the union, in compilation order: is it reported (false for `private rule`), its strings *)
+Definition rule_decl := (bool * list sdecl)%type.
+(* a reported string: name id, has_xor_modifier, matches *)
+Definition rstr := (N * bool * list smatch)%type.
+
+Definition rstr_eqb (a b : rstr) : bool :=
+  (fst (fst a) =? fst (fst b)) && Bool.eqb (snd (fst a)) (snd (fst b))
+  && list_eqb smatch_eqb (snd a) (snd b).
+
+(* build_matched_rule: zip the rule's variables with their match vectors, drop private strings and
+   strings without matches, report name / xor flag / matches *)
+Fixpoint reported_strings (sds : list sdecl) (vms : list (list smatch)) : list rstr :=
+  match sds, vms with
+  | sd :: sds', vm :: vms' =>
+      (if sd_private sd then []
+       else match vm with
+            | [] => []
+            | _ => [(sd_name sd, match t_xor (sd_decl sd) with Some _ => true | None => false end, vm)]
+            end) ++ reported_strings sds' vms'
+  | _, _ => []
+  end.
+
+(* the flat match-vector array is consumed positionally, rule after rule (private rules too) *)
+Fixpoint report_rules (rules : list rule_decl) (vms : list (list smatch)) : list (list rstr) :=
+  match rules with
+  | [] => []
+  | (rep, sds) :: rest =>
+      let n := N.of_nat (length sds) in
+      (if rep then [reported_strings sds (ntake n vms)] else []) ++ report_rules rest (ndrop n vms)
+  end.
+
+(* rules: the union rule set in compilation order; reported: for each non-private rule, in that
+   order, the strings the implementation reported (name, xor flag, matches); alone_same: the
+   implementation's results for the rules of A (resp. B) inside the union equal, rule by rule and
+   field by field (verdict, string names, xor flags, matches), its results for A (resp. B) alone.
+   corr: the union's report is that of the model with one shared automaton over all strings,
+         consumed positionally.
+   spec: the report is what every string gives when it is the only string of the scanner. *)
+Definition C12_case (prm : sparams) (m : bytes) (rules : list rule_decl) (reported : list (list rstr))
            (alone_same : bool) : bool * bool * N :=
-  (list_eqb (list_eqb smatch_eqb) outs (scan_direct prm (map text_matcher decls) m),
-   alone_same && forallb2 (fun d o => list_eqb smatch_eqb o (model_scan_text prm d m)) decls outs,
+  let decls := flat_map (fun r => map sd_decl (snd r)) rules in
+  (list_eqb (list_eqb rstr_eqb) reported
+            (report_rules rules (scan_direct prm (map text_matcher decls) m)),
+   alone_same
+   && list_eqb (list_eqb rstr_eqb) reported
+               (report_rules rules (map (fun d => model_scan_text prm d m) decls)),
    0).
